@@ -34,15 +34,77 @@ REQUIRED_THEOREMS = [
     "C06.fixed_on_the_F30_witnesses",
 ]
 TRUSTED_EXTRA = c02.TRUSTED_EXTRA + [
+    "results that cannot be pickled are outside the model (its values are storable): covered by the oracle-only probe "
+    "`unpicklable_probe` (check_call_in_cache must say False: nothing can be stored, every call executes) — this is what found F48",
     "a fresh process is the identity on this model (the key is a function of the call, the store is on disk); the harness runs such "
     "steps in another interpreter (new string-hash seed, empty in-memory function table)",
 ]
 
 
+UNPICKLABLE_LOG = []
+
+
+def _unpicklable_result(x, shape):
+    UNPICKLABLE_LOG.append(x)
+    bad = (lambda: x)  # noqa: E731  (a local lambda cannot be pickled)
+    if shape == "lock":  # TypeError rather than PicklingError
+        import threading
+        return [x, threading.Lock()]
+    if shape == "alone":
+        return bad
+    if shape == "after-large-prefix":
+        return ["p" * 100000, x, bad]
+    if shape == "inside-dict":
+        return {"x": x, "f": bad, "tail": list(range(50))}
+    return (x, [bad])
+
+
+def unpicklable_probe(ctx, res):
+    """`check_call_in_cache` answers True exactly when the next identical call would not execute the function — also for a
+    function whose result cannot be pickled (nothing can be stored for it: every call executes, so the answer must be False).
+    Oracle only (the model's results are storable values)."""
+    import warnings
+    joblib = core.use_repo()
+    for ci, compress in enumerate((False, True, ("gzip", 3))):
+        for shape in ("alone", "after-large-prefix", "inside-dict", "in-tuple", "lock"):
+            loc = ctx.scratch / f"unpicklable-{ci}-{shape}"
+            case = dict(kind="unpicklable-result", shape=shape, compress=compress)
+            import contextlib
+            import io
+            # joblib reports the failed load of a damaged entry on stdout/stderr
+            with warnings.catch_warnings(), contextlib.redirect_stdout(io.StringIO()), contextlib.redirect_stderr(io.StringIO()):
+                warnings.simplefilter("ignore")
+                mem = joblib.Memory(str(loc), verbose=0, compress=compress)
+                f = mem.cache(_unpicklable_result)
+                UNPICKLABLE_LOG.clear()
+                try:
+                    f(3, shape)
+                    flag = f.check_call_in_cache(3, shape)
+                    n0 = len(UNPICKLABLE_LOG)
+                    f(3, shape)
+                    executed = len(UNPICKLABLE_LOG) > n0
+                except Exception as e:  # noqa: BLE001
+                    res.fail("wrapper-rejects-valid-call:unpicklable-result", case, repr(e)[:200])
+                    continue
+            res.evaluations += 1
+            res.count("unpicklable-result-probes")
+            res.nontrivial.add(("unpicklable", shape, str(compress)))
+            if flag != (not executed):
+                res.fail("check-call-in-cache-disagrees:unpicklable-result", case,
+                         dict(check_call_in_cache=flag, next_call_executed=executed))
+
+
 def run(ctx):
+    if ctx.replay and ctx.replay.get("case", {}).get("kind") == "unpicklable-result":
+        res = core.Result()
+        res.rule = "replay: the unpicklable-result probe is re-run"
+        unpicklable_probe(ctx, res)
+        return res
     if ctx.replay:
         return c02.replay(ctx, "C06")
-    return memcache.explore(ctx, "C06", 12000 if ctx.thorough else 1000, "main")
+    res = memcache.explore(ctx, "C06", 12000 if ctx.thorough else 1000, "main")
+    unpicklable_probe(ctx, res)
+    return res
 
 
 def search(ctx, res):
